@@ -10,6 +10,8 @@ import Mathlib.Algebra.Order.Field.Basic
 import Mathlib.Algebra.BigOperators.Intervals
 import Mathlib.Tactic.Linarith
 import Mathlib.Tactic.Ring
+import Mathlib.RingTheory.PowerSeries.Basic
+import Mathlib.Data.List.GetD
 
 set_option linter.unusedSectionVars false
 
@@ -42,9 +44,271 @@ def lspRefPoly (lsp : List K) : List K :=
   let Q := polyMul qfac qq
   (List.range (m + 1)).map fun k => (1 / two) * (P.getD k 0 + Q.getD k 0)
 
+open PowerSeries in
+/-- a coefficient list as a power series in `z⁻¹` -/
+noncomputable def toPS (a : List K) : PowerSeries K := PowerSeries.mk fun i => a.getD i 0
+
+theorem coeff_toPS (a : List K) (k : Nat) : PowerSeries.coeff k (toPS a) = a.getD k 0 := by
+  simp [toPS]
+
+theorem polyMulCoef_eq_zero (a b : List K) (k : Nat) (h : a.length + b.length - 1 ≤ k) :
+    polyMulCoef a b k = 0 := by
+  unfold polyMulCoef
+  apply Finset.sum_eq_zero
+  intro i hi
+  rw [Finset.mem_range] at hi
+  by_cases hia : i < a.length
+  · have : b.length ≤ k - i := by omega
+    rw [List.getD_eq_default _ _ this, mul_zero]
+  · rw [List.getD_eq_default _ _ (by omega), zero_mul]
+
+theorem toPS_polyMul (a b : List K) : toPS (polyMul a b) = toPS a * toPS b := by
+  ext k
+  rw [PowerSeries.coeff_mul, coeff_toPS,
+    Finset.Nat.sum_antidiagonal_eq_sum_range_succ (fun i j => PowerSeries.coeff i (toPS a) * PowerSeries.coeff j (toPS b))]
+  simp only [coeff_toPS]
+  change _ = polyMulCoef a b k
+  unfold polyMul
+  split
+  · rename_i h
+    simp only [Bool.or_eq_true, List.isEmpty_iff] at h
+    rcases h with h | h <;> subst h <;> simp [polyMulCoef]
+  · by_cases hk : k < a.length + b.length - 1
+    · simp [List.getD_eq_getElem?_getD, hk]
+    · rw [polyMulCoef_eq_zero _ _ _ (by omega), List.getD_eq_default]
+      simp; omega
+
+open PowerSeries
+
+/-- the second-order section `1 + p z⁻¹ + z⁻²` as a power series -/
+noncomputable def secFac (p : K) : K⟦X⟧ := 1 + C p * X + X * X
+
+noncomputable def secPS : List K → K⟦X⟧
+  | [] => 1
+  | p :: ps => secFac p * secPS ps
+
+theorem toPS_sec (p : K) : toPS [1, p, 1] = secFac p := by
+  ext n
+  rw [coeff_toPS]
+  unfold secFac
+  rcases n with _ | _ | _ | n <;> simp [coeff_X, coeff_one]
+
+theorem toPS_one : toPS ([1] : List K) = 1 := by
+  ext n
+  rw [coeff_toPS]
+  rcases n with _ | n <;> simp [coeff_one]
+
+theorem toPS_sectionsPoly (ps : List K) : toPS (sectionsPoly ps) = secPS ps := by
+  induction ps with
+  | nil => simp [sectionsPoly, secPS, toPS_one]
+  | cons p ps ih => simp [sectionsPoly, secPS, toPS_polyMul, toPS_sec, ih]
+
+theorem coeff_zero_secPS (ps : List K) : coeff 0 (secPS ps) = 1 := by
+  induction ps with
+  | nil => simp [secPS]
+  | cons p ps ih =>
+    simp only [coeff_zero_eq_constantCoeff_apply] at ih ⊢
+    simp [secPS, secFac, ih]
+
+/-- memory of the sections of a cascade driven by `f`, before time `n` -/
+noncomputable def stateAt : List K → K⟦X⟧ → Nat → List (K × K)
+  | [], _, _ => []
+  | p :: ps, f, n => (coeff n (X * f), coeff n (X * (X * f))) :: stateAt ps (secFac p * f) n
+
+theorem stateAt_zero (ps : List K) (f : K⟦X⟧) :
+    stateAt ps f 0 = List.replicate ps.length (0, 0) := by
+  induction ps generalizing f with
+  | nil => rfl
+  | cons p ps ih => simp [stateAt, ih, List.replicate_succ]
+
+theorem lspCascade_aux (ps : List K) (f : K⟦X⟧) (n : Nat) (pre : List (K × K)) :
+    (ps.zip (stateAt ps f n)).foldl (fun (acc : K × List (K × K)) (p, (a1, a2)) =>
+      (acc.1 + p * a1 + a2, acc.2 ++ [(acc.1, a1)])) (coeff n f, pre)
+    = (coeff n (secPS ps * f), pre ++ stateAt ps f (n + 1)) := by
+  induction ps generalizing f pre with
+  | nil => simp [stateAt, secPS]
+  | cons p ps ih =>
+    simp only [stateAt, List.zip_cons_cons, List.foldl_cons]
+    have h1 : coeff n f + p * coeff n (X * f) + coeff n (X * (X * f)) = coeff n (secFac p * f) := by
+      have : secFac p * f = f + C p * (X * f) + X * (X * f) := by unfold secFac; ring
+      rw [this]; simp
+    rw [h1, ih]
+    simp [secPS, coeff_succ_X_mul, mul_assoc, mul_comm (secPS ps)]
+
+theorem lspCascade_run (ps : List K) (f : K⟦X⟧) (n : Nat) :
+    lspCascade (coeff n f) ps (stateAt ps f n) = (coeff n (secPS ps * f), stateAt ps f (n + 1)) := by
+  have := lspCascade_aux ps f n []
+  simpa [lspCascade] using this
+
+
+/-- one time step of the loop of `lsp2lpc` -/
+def lspStep (odd : Prop) [Decidable odd] (half : K) (p q : List K)
+    (acc : List K × List (K × K) × List (K × K) × K × K) (k : Nat) :
+    List K × List (K × K) × List (K × K) × K × K :=
+  let (outs, sa, sb, xf, xff) := acc
+  let xx : K := if k = 0 then 1 else 0
+  let (a00, b00, xf', xff') :=
+    if odd then (xx, xx - xff, xx, xf) else (xx + xf, xx - xf, xx, xff)
+  let (ao, sa') := lspCascade a00 p sa
+  let (bo, sb') := lspCascade b00 q sb
+  let outs' := if k > 0 then outs ++ [-half * (ao + bo)] else outs
+  (outs', sa', sb', xf', xff')
+
+/-- the recorded outputs after `n` time steps -/
+def outsN (g : Nat → K) (n : Nat) : List K := (List.range (n - 1)).map fun j => g (j + 1)
+
+theorem outsN_succ (g : Nat → K) (n : Nat) :
+    (if n > 0 then outsN g n ++ [g n] else outsN g n) = outsN g (n + 1) := by
+  rcases n with _ | n
+  · simp [outsN]
+  · simp [outsN, List.range_succ]
+
+theorem lspStep_odd (odd : Prop) [Decidable odd] (h : odd) (half : K) (p q : List K) (outs : List K)
+    (n : Nat) :
+    lspStep odd half p q (outs, stateAt p (toPS [1]) n, stateAt q (toPS [1, 0, -1]) n,
+        (if n = 1 then 1 else 0), (if n = 2 then 1 else 0)) n
+      = ((if n > 0 then outs ++ [-half * (coeff n (secPS p * toPS [1])
+              + coeff n (secPS q * toPS [1, 0, -1]))] else outs),
+          stateAt p (toPS [1]) (n + 1), stateAt q (toPS [1, 0, -1]) (n + 1),
+          (if n + 1 = 1 then 1 else 0), (if n + 1 = 2 then 1 else 0)) := by
+  have ha : (if n = 0 then (1 : K) else 0) = coeff n (toPS [1]) := by
+    rw [coeff_toPS]; rcases n with _ | n <;> simp
+  have hb : (if n = 0 then (1 : K) else 0) - (if n = 2 then 1 else 0)
+      = coeff n (toPS [1, 0, -1]) := by
+    rw [coeff_toPS]; rcases n with _ | _ | _ | n <;> simp
+  unfold lspStep
+  simp only [h, if_true]
+  rw [hb]
+  conv_lhs => rw [ha]
+  rw [lspCascade_run, lspCascade_run, ← ha]
+  simp
+
+theorem lspStep_even (odd : Prop) [Decidable odd] (h : ¬ odd) (half : K) (p q : List K)
+    (outs : List K) (n : Nat) :
+    lspStep odd half p q (outs, stateAt p (toPS [1, 1]) n, stateAt q (toPS [1, -1]) n,
+        (if n = 1 then 1 else 0), 0) n
+      = ((if n > 0 then outs ++ [-half * (coeff n (secPS p * toPS [1, 1])
+              + coeff n (secPS q * toPS [1, -1]))] else outs),
+          stateAt p (toPS [1, 1]) (n + 1), stateAt q (toPS [1, -1]) (n + 1),
+          (if n + 1 = 1 then 1 else 0), 0) := by
+  have ha : (if n = 0 then (1 : K) else 0) + (if n = 1 then 1 else 0)
+      = coeff n (toPS [1, 1]) := by
+    rw [coeff_toPS]; rcases n with _ | _ | n <;> simp
+  have hb : (if n = 0 then (1 : K) else 0) - (if n = 1 then 1 else 0)
+      = coeff n (toPS [1, -1]) := by
+    rw [coeff_toPS]; rcases n with _ | _ | n <;> simp
+  unfold lspStep
+  simp only [h, if_false]
+  rw [ha, hb, lspCascade_run, lspCascade_run]
+  simp
+
+
+theorem fold_odd (odd : Prop) [Decidable odd] (h : odd) (half : K) (p q : List K) (n : Nat) :
+    (List.range n).foldl (lspStep odd half p q)
+        ([], List.replicate p.length (0, 0), List.replicate q.length (0, 0), 0, 0)
+      = (outsN (fun k => -half * (coeff k (secPS p * toPS [1])
+            + coeff k (secPS q * toPS [1, 0, -1]))) n,
+          stateAt p (toPS [1]) n, stateAt q (toPS [1, 0, -1]) n,
+          (if n = 1 then 1 else 0), (if n = 2 then 1 else 0)) := by
+  induction n with
+  | zero => simp [outsN, stateAt_zero]
+  | succ n ih =>
+    rw [List.range_succ, List.foldl_append, ih, List.foldl_cons, List.foldl_nil, lspStep_odd _ h,
+      outsN_succ (fun k => -half * (coeff k (secPS p * toPS [1])
+            + coeff k (secPS q * toPS [1, 0, -1])))]
+
+theorem fold_even (odd : Prop) [Decidable odd] (h : ¬ odd) (half : K) (p q : List K) (n : Nat) :
+    (List.range n).foldl (lspStep odd half p q)
+        ([], List.replicate p.length (0, 0), List.replicate q.length (0, 0), 0, 0)
+      = (outsN (fun k => -half * (coeff k (secPS p * toPS [1, 1])
+            + coeff k (secPS q * toPS [1, -1]))) n,
+          stateAt p (toPS [1, 1]) n, stateAt q (toPS [1, -1]) n,
+          (if n = 1 then 1 else 0), 0) := by
+  induction n with
+  | zero => simp [outsN, stateAt_zero]
+  | succ n ih =>
+    rw [List.range_succ, List.foldl_append, ih, List.foldl_cons, List.foldl_nil, lspStep_even _ h,
+      outsN_succ (fun k => -half * (coeff k (secPS p * toPS [1, 1])
+            + coeff k (secPS q * toPS [1, -1])))]
+
+theorem length_parity_filter (l : List K) :
+    (((List.range l.length).zip l).filter (fun x => decide (x.1 % 2 = 0))).length
+        = (l.length + 1) / 2 ∧
+    (((List.range l.length).zip l).filter (fun x => decide (x.1 % 2 = 1))).length
+        = l.length / 2 := by
+  induction l using List.reverseRecOn with
+  | nil => simp
+  | append_singleton l a ih =>
+    rw [List.length_append, List.length_singleton, List.range_succ,
+      List.zip_append (by simp), List.filter_append, List.filter_append, List.length_append,
+      List.length_append, ih.1, ih.2]
+    rcases Nat.mod_two_eq_zero_or_one l.length with h | h <;> simp [h] <;> omega
+
+theorem getD_polyMul_sections (fac ps : List K) (k : Nat) :
+    (polyMul fac (sectionsPoly ps)).getD k 0 = coeff k (secPS ps * toPS fac) := by
+  rw [← coeff_toPS, toPS_polyMul, toPS_sectionsPoly, mul_comm]
+
+theorem coeff_zero_secPS_mul (ps fac : List K) :
+    coeff 0 (secPS ps * toPS fac) = fac.getD 0 0 := by
+  have := coeff_zero_secPS ps
+  rw [coeff_zero_eq_constantCoeff_apply] at this ⊢
+  rw [map_mul, this, one_mul, ← coeff_zero_eq_constantCoeff_apply, coeff_toPS]
+
+
 /-- **`lsp2lpc` = ½(P + Q).** (Repaired code: the frequencies are the elements after the gain.) -/
 theorem lsp2lpc_poly (b : Bool) (g : K) (lsp : List K) :
     lsp2lpc ⟨b, true⟩ (g :: lsp) = lspRefPoly lsp := by
-  sorry
+  have hlen := length_parity_filter lsp
+  have h2 : ((2 : Nat) : K) ≠ 0 := by
+    rw [Nat.cast_ofNat]; exact two_ne_zero
+  have h1 : lsp2lpc ⟨b, true⟩ (g :: lsp) = 1 :: List.map (fun x => -x)
+      (List.foldl (lspStep (lsp.length % 2 = 1) (1 / ((2 : Nat) : K))
+        ((((List.range lsp.length).zip lsp).filter (fun x => decide (x.1 % 2 = 0))
+          |>.map (·.2)).map fun x => -((2 : Nat) : K) * Transc.cos x)
+        ((((List.range lsp.length).zip lsp).filter (fun x => decide (x.1 % 2 = 1))
+          |>.map (·.2)).map fun x => -((2 : Nat) : K) * Transc.cos x))
+        ([], List.replicate (if lsp.length % 2 = 1 then (lsp.length + 1) / 2 else lsp.length / 2) (0, 0),
+          List.replicate (if lsp.length % 2 = 1 then (lsp.length - 1) / 2 else lsp.length / 2) (0, 0), 0, 0)
+        (List.range (lsp.length + 1))).1 := rfl
+  rw [h1]
+  unfold lspRefPoly
+  simp only [getD_polyMul_sections]
+  by_cases hodd : lsp.length % 2 = 1
+  · have e1 : (if lsp.length % 2 = 1 then (lsp.length + 1) / 2 else lsp.length / 2)
+        = ((((List.range lsp.length).zip lsp).filter (fun x => decide (x.1 % 2 = 0))
+          |>.map (·.2)).map fun x => -((2 : Nat) : K) * Transc.cos x).length := by
+      simp [hodd, hlen.1]
+    have e2 : (if lsp.length % 2 = 1 then (lsp.length - 1) / 2 else lsp.length / 2)
+        = ((((List.range lsp.length).zip lsp).filter (fun x => decide (x.1 % 2 = 1))
+          |>.map (·.2)).map fun x => -((2 : Nat) : K) * Transc.cos x).length := by
+      simp [hodd, hlen.2]; omega
+    rw [e1, e2, fold_odd _ hodd]
+    simp only [hodd, if_true, outsN, Nat.add_sub_cancel, List.map_map]
+    rw [List.range_succ_eq_map, List.map_cons, List.map_map]
+    congr 1
+    · rw [coeff_zero_secPS_mul, coeff_zero_secPS_mul]
+      simp; field_simp; norm_num
+    · apply List.map_congr_left
+      intro j _
+      simp only [Function.comp]
+      ring
+  · have e1 : (if lsp.length % 2 = 1 then (lsp.length + 1) / 2 else lsp.length / 2)
+        = ((((List.range lsp.length).zip lsp).filter (fun x => decide (x.1 % 2 = 0))
+          |>.map (·.2)).map fun x => -((2 : Nat) : K) * Transc.cos x).length := by
+      simp [hodd, hlen.1]; omega
+    have e2 : (if lsp.length % 2 = 1 then (lsp.length - 1) / 2 else lsp.length / 2)
+        = ((((List.range lsp.length).zip lsp).filter (fun x => decide (x.1 % 2 = 1))
+          |>.map (·.2)).map fun x => -((2 : Nat) : K) * Transc.cos x).length := by
+      simp [hodd, hlen.2]
+    rw [e1, e2, fold_even _ hodd]
+    simp only [hodd, if_false, outsN, Nat.add_sub_cancel, List.map_map]
+    rw [List.range_succ_eq_map, List.map_cons, List.map_map]
+    congr 1
+    · rw [coeff_zero_secPS_mul, coeff_zero_secPS_mul]
+      simp; field_simp; norm_num
+    · apply List.map_congr_left
+      intro j _
+      simp only [Function.comp]
+      ring
 
 end Jb
